@@ -365,3 +365,389 @@ def rule_noninterference(an, res):
 def rule_c09(an, res):
     check_allow_encoding(an, res)
     rule_insert_table(an, res, 'C09')
+
+
+# ---------------------------------------------------------------------------------------------- C02
+
+def net(effs, kind):
+    """net change of a cumulative effect kind (CNT / PART carry the value relative to segment entry)"""
+    last = None
+    for e in effs:
+        if e.kind == kind or (kind == 'PART' and e.kind == 'CNT' and e.also_part):
+            if e.delta is None:
+                return None
+            last = e.delta
+    return 0 if last is None else last
+
+
+def balance_of(seg, roles):
+    effs = seg.effects
+    out = {}
+    bad = []
+    if roles.counter is not None:
+        out['counter'] = net(effs, 'CNT')
+    out['index'] = sum(1 for e in effs if e.kind == 'BIND') - sum(1 for e in effs if e.kind == 'UNBIND')
+    if roles.part is not None:
+        out['partition'] = net(effs, 'PART')
+    for a in roles.aux_kind:
+        out['aux:' + a] = (sum(1 for e in effs if e.kind == 'AUX_ADD' and e.aux == a)
+                           - sum(1 for e in effs if e.kind == 'AUX_DEL' and e.aux == a))
+    return out
+
+
+def rule_c02(an, res):
+    prop = 'C02'
+    for cm, roles in an.classes():
+        for m in an.entry_points(cm):
+            k = ops.kind_of(m)
+            if k == 'UNKNOWN':
+                res.incomplete.append('G-UNKNOWN public entry point %s::%s has no row in the transition table' % (cm.name, m.key()))
+                continue
+            tops = method_segments(an, cm, roles, m, res)
+            for top in tops:
+                if k == 'OBS':
+                    check_observer(res, prop, cm, roles, m, top)
+                    continue
+                if k == 'CLEAR':
+                    continue   # reset-completeness is C20; clear() legitimately zeroes the counter
+                for seg in top.all_segments():
+                    ok_f, _ = lift.feasible(seg)
+                    if not ok_f:
+                        continue
+                    check_balance(res, prop, cm, roles, m, seg)
+                    if roles.counter is not None:
+                        check_bound(res, prop, cm, roles, m, seg)
+                    check_no_resize(res, prop, cm, roles, m, seg)
+                if roles.kind == 'maplist' and k in ('INSERT', 'ERASE', 'FIND', 'CLEAN'):
+                    check_purge_first(res, prop, cm, roles, m, top)
+        check_ctor_capacity(an, res, prop, cm, roles)
+
+
+def where_of(m, seg):
+    return '%s%s' % (m.key(), ' [loop body]' if seg.loop is not None else '')
+
+
+def check_balance(res, prop, cm, roles, m, seg):
+    bal = balance_of(seg, roles)
+    vals = {k: v for k, v in bal.items()}
+    if roles.kind == 'maplist':
+        # purge iterations unbind; the matching list nodes go in one range erase after the loop (shape checked in C17)
+        if ops.is_purge_iter(seg):
+            res.ob('R-BALANCE', ok=True)
+            return
+    if not seg.state_effects():
+        return
+    if roles.name == 'fifo_cache':
+        vals.pop('partition', None)
+    distinct = set(vals.values())
+    ok = None not in distinct and len(distinct) == 1
+    res.ob('R-BALANCE', ok=ok)
+    if len(res.samples) < 6 and seg.effs('BIND', 'UNBIND'):
+        res.sample(dict(container=cm.name, method=where_of(m, seg), valuation=' '.join(seg.valuation()), balance=vals))
+    if not ok:
+        d = 'counter/index/partition/aux out of step: ' + ', '.join('%s%s' % (k, '=?' if v is None else '%+d' % v) for k, v in sorted(vals.items()))
+        V(res, prop, 'R-BALANCE', cm, where_of(m, seg), d, first_site(seg.state_effects(), seg, m),
+          'on path [%s] the element counter, the index, the free/used partition and the auxiliary structures do not change by the same amount: %s'
+          % (' '.join(seg.valuation()), vals))
+
+
+def check_bound(res, prop, cm, roles, m, seg):
+    """0 <= used <= capacity at every point of the path, from RI (0 <= used0 <= cap, cap >= 1) and the path's tests"""
+    x_min, x_max = None, 0        # x = used0 - cap
+    lo = 0                        # used0 >= lo
+    cnt0 = True
+    for k, i in seg.order:
+        if k == 'cond':
+            kind, args, truth, site, raw = seg.conds[i]
+            if not cnt0:
+                continue          # tests after the counter changed speak about a different value
+            if kind == 'FULL':
+                if truth:
+                    x_min = 0
+                    lo = max(lo, 1)
+                else:
+                    x_max = min(x_max, -1)
+            elif kind == 'OVERFULL':
+                if not truth:
+                    x_max = min(x_max, 0)
+                else:
+                    x_min = 1
+            elif kind == 'ATCAP':
+                if truth:
+                    x_min = 0
+                    lo = max(lo, 1)
+            elif kind == 'CAPCMP':
+                c, nop, sign = args
+                # sign=+1:  (cap - used + c) nop 0  i.e. -x + c nop 0 ; sign=-1: x + c nop 0
+                if nop in ('<', '<='):
+                    strict = 1 if nop == '<' else 0
+                    if truth:
+                        if sign == 1:      # -x + c (<|<=) 0  ->  x >= c + strict
+                            x_min = max(x_min if x_min is not None else -10 ** 9, c + strict)
+                        else:              # x + c (<|<=) 0   ->  x <= -c - strict
+                            x_max = min(x_max, -c - strict)
+                    else:
+                        if sign == 1:      # not(-x + c < 0) -> x <= c ; not(<=) -> x <= c - 1
+                            x_max = min(x_max, c - (0 if strict else 1))
+                        else:              # not(x + c < 0) -> x >= -c ; not(<=) -> x >= -c + 1
+                            x_min = max(x_min if x_min is not None else -10 ** 9, -c + (0 if strict else 1))
+            elif kind == 'NONEMPTY' and truth:
+                lo = max(lo, 1)
+            elif kind == 'PRESENT' and truth and args[1] == 0:
+                lo = max(lo, 1)
+            elif kind == 'HASKEY' and truth:
+                lo = max(lo, 1)
+            elif kind == 'HASKEY' and not truth and roles.name == 'fifo_cache' and args[0].kind in ('FRONT', 'FROMEND'):
+                # fifo RI: unbound nodes form a prefix, so an unbound head node means a free node exists (size < capacity)
+                x_max = min(x_max, -1)
+        elif k == 'eff':
+            e = seg.effects[i]
+            if e.kind != 'CNT':
+                continue
+            cnt0 = False
+            if e.delta is None:
+                res.ob('R-BOUND', ok=False)
+                V(res, prop, 'R-BOUND', cm, where_of(m, seg), 'counter assigned a value that is not its old value +/- a constant',
+                  e.site, 'counter := %s' % show(e.val))
+                continue
+            hi_ok = x_max + e.delta <= 0
+            lo_ok = lo + e.delta >= 0
+            res.ob('R-BOUND', ok=hi_ok and lo_ok)
+            if not hi_ok:
+                V(res, prop, 'R-BOUND', cm, where_of(m, seg), 'counter may exceed capacity (increment not dominated by a not-full test or a removal)',
+                  e.site, 'on path [%s] size - capacity can reach %+d' % (' '.join(seg.valuation()), x_max + e.delta))
+            if not lo_ok:
+                V(res, prop, 'R-BOUND', cm, where_of(m, seg), 'counter may drop below zero (decrement not dominated by a non-empty / present test)',
+                  e.site, 'on path [%s] size can reach %+d' % (' '.join(seg.valuation()), lo + e.delta))
+
+
+def check_no_resize(res, prop, cm, roles, m, seg):
+    for e in seg.effects:
+        if e.kind in ('STORAGE_OP', 'ORDER_OP'):
+            res.ob('R-CAPACITY-FIXED', ok=False)
+            V(res, prop, 'R-CAPACITY-FIXED', cm, where_of(m, seg), 'structure that defines capacity() is resized: %s' % e.name, e.site,
+              'capacity() must always equal the constructor argument; %s changes the slot storage / node list' % e.name)
+
+
+def check_observer(res, prop, cm, roles, m, top):
+    L = top.L
+    r = top.ret
+    ok = False
+    want = ''
+    if m.name == 'size':
+        want = 'the element counter' if roles.counter else 'the index size'
+        if roles.counter is not None:
+            ok = r == ld0(THIS(roles.counter))
+        else:
+            ok = isinstance(r, tuple) and r[0] == 'q' and r[1] == 'size' and r[2] == L.index and (r[4] or 0) == 0
+    elif m.name == 'empty':
+        want = 'counter == 0'
+        cnt = ld0(THIS(roles.counter)) if roles.counter else None
+        if isinstance(r, tuple) and r[0] == 'cmp':
+            nc = lift.norm_cmp(r)
+            atoms, c, nop = nc
+            keys = list(atoms)
+            if len(keys) == 1 and c == 0 and nop == '==':
+                a = keys[0]
+                ok = (a == cnt) or (isinstance(a, tuple) and a[0] == 'q' and a[1] == 'size' and a[2] == L.index and roles.counter is None)
+            elif len(keys) == 1 and nop == '<=' and c == 0 and atoms[keys[0]] == 1:
+                a = keys[0]
+                ok = (a == cnt)      # used <= 0  <=> used == 0 for unsigned
+        elif isinstance(r, tuple) and r[0] == 'q' and r[1] == 'empty' and r[2] == L.index and roles.counter is None:
+            ok = True
+    elif m.name == 'capacity':
+        want = 'size of the fixed slot storage'
+        caps = [x for x in (L.slots, L.order, L.perm) if x is not None]
+        ok = isinstance(r, tuple) and r[0] == 'q' and r[1] == 'size' and r[2] in caps and (r[4] or 0) == 0
+    ok = ok and not top.state_effects()
+    res.ob('R-OBSERVERS', ok=ok)
+    res.sample(dict(container=cm.name, method=m.key(), returns=show(r) if r is not None else None), cap=9)
+    if not ok:
+        V(res, prop, 'R-OBSERVERS', cm, m.key(), '%s() does not return %s' % (m.name, want), site_of_seg(top, m),
+          '%s() returns %s with effects %s' % (m.name, show(r) if r is not None else None, [repr(e) for e in top.state_effects()][:3]))
+
+
+def check_ctor_capacity(an, res, prop, cm, roles):
+    if roles.name not in CACHES:
+        return
+    ctor = cm.ctor()
+    paths = an.paths(cm, ctor)
+    L = lift.Lifter(roles)
+    capf = roles.slots or roles.order
+    ok = False
+    site = None
+    for p in paths:
+        for e in p.trace:
+            if e[0] == 'init' and e[1] == THIS(capf):
+                site = e[3]
+                v = e[2]
+                ok = isinstance(v, tuple) and v[0] == 'ctor' and len(v[2]) >= 1 and v[2][0] == ('p', 'capacity')
+    res.ob('R-CAPACITY-CTOR', ok=ok)
+    if not ok:
+        V(res, prop, 'R-CAPACITY-CTOR', cm, ctor.key(), 'constructor does not size %s with the capacity argument' % capf,
+          site or (ctor.loc and (ctor.loc[0], ctor.loc[1], ctor.key())), 'capacity() would not equal the constructor argument')
+
+
+def check_purge_first(res, prop, cm, roles, m, top):
+    """ut_map / ut_set: the expired-prefix purge runs before the operation consults or changes the index"""
+    pl = ops.purge_loops(top)
+    first_purge = None
+    first_touch = None
+    for pos, (k, i) in enumerate(top.order):
+        if k == 'loop' and i in pl and first_purge is None:
+            first_purge = pos
+        elif k == 'loop' and i not in pl and first_touch is None:
+            lp, segs = top.loops[i]
+            if any(s.conds_of('PRESENT') or s.effs('BIND', 'UNBIND') for s in segs):
+                first_touch = pos
+        elif k == 'cond' and top.conds[i][0] == 'PRESENT' and first_touch is None:
+            first_touch = pos
+        elif k == 'eff' and top.effects[i].kind in ('BIND', 'UNBIND', 'INDEX_OP') and first_touch is None:
+            first_touch = pos
+    # any index query (find) before the purge also counts: look at raw query events
+    q_before = None
+    seen_loop = False
+    for e in top.events:
+        if e[0] == 'loop':
+            seen_loop = True
+        if e[0] == 'q' and e[1][1] in ('find', 'count', 'contains', 'at') and e[1][2] == top.L.index and not seen_loop:
+            q_before = e
+            break
+    ok = first_purge is not None and (first_touch is None or first_purge < first_touch) and q_before is None
+    res.ob('R-PURGE-FIRST', ok=ok)
+    if not ok:
+        site = q_before[2] if q_before else site_of_seg(top, m)
+        V(res, prop, 'R-PURGE-FIRST', cm, m.key(), 'index consulted or changed before (or without) purging expired entries', site,
+          '%s must purge the expired prefix with its own clock sample before anything else; purge %s'
+          % (m.key(), 'missing on this path' if first_purge is None else 'runs after the index is used'))
+
+
+# ---------------------------------------------------------------------------------------------- C03
+
+POLICY_VICTIMS = {
+    'lru_cache': ('BACK',), 'mru_cache': ('BACK',), 'tlru_cache': ('BACK', 'AUXHEAD'), 'utlru_cache': ('BACK', 'AUXHEAD'),
+    'lfu_cache': ('AUXHEAD',), 'lfuda_cache': ('AUXHEAD',), 'rr_cache': ('RANDPOS',), 'fifo_cache': ('FROMEND', 'FRONT'),
+}
+
+
+def rule_c03(an, res):
+    prop = 'C03'
+    for cm, roles in an.classes():
+        for m in an.entry_points(cm):
+            k = ops.kind_of(m)
+            if k in ('OBS', 'CLEAR', 'UNKNOWN'):
+                continue
+            for top in method_segments(an, cm, roles, m, res):
+                for seg in top.all_segments():
+                    ok_f, _ = lift.feasible(seg)
+                    if not ok_f:
+                        continue
+                    check_removals(res, prop, cm, roles, m, k, seg)
+
+
+def check_removals(res, prop, cm, roles, m, k, seg):
+    effs = seg.effects
+    unb = [e for e in effs if e.kind == 'UNBIND']
+    binds = [e for e in effs if e.kind == 'BIND']
+    val = ' '.join(seg.valuation())
+    idxops = [e for e in effs if e.kind == 'INDEX_OP' and e.name in ('clear', 'swap', 'extract', 'merge')]
+    for e in idxops:
+        res.ob('R-REMOVE-LICENSE', ok=False)
+        V(res, prop, 'R-REMOVE-LICENSE', cm, where_of(m, seg), 'index %s() outside clear()' % e.name, e.site,
+          '%s drops entries wholesale in %s' % (e.name, m.key()))
+    present = seg.cond('PRESENT')
+    if not unb:
+        if seg.state_effects():
+            res.ob('R-NO-COLLATERAL', ok=True)
+        return
+    where = where_of(m, seg)
+    for e in unb:
+        lic = None
+        ent = e.ent
+        if k == 'ERASE':
+            if present is True and ent.kind == 'FOUND' and same_key(ent, seg):
+                lic = 'erase(k) of the found entry'
+        elif k == 'FIND':
+            exp = found_expired(seg)
+            if cm.name in TTL_CACHES and present is True and exp is True and ent.kind == 'FOUND':
+                lic = 'lookup of an expired entry removes that entry'
+        elif k == 'INSERT':
+            ins = seg.cond('INS_OK')
+            if present is False and ins is not False and roles.name in POLICY_VICTIMS:
+                full = seg.cond('FULL')
+                if roles.name == 'fifo_cache':
+                    hk = [c for c in seg.conds if c[0] == 'HASKEY' and c[2]]
+                    if hk and same_ent(hk[0][1][0], ent) and ent.kind in POLICY_VICTIMS['fifo_cache']:
+                        lic = 'fifo recycles the head node which holds a key'
+                elif full is True and ent.kind in POLICY_VICTIMS[roles.name]:
+                    if ent.kind == 'AUXHEAD' and roles.aux_kind.get(ent.arg) == 'ttl':
+                        # expired-first: only when the head is expired
+                        ex = [c for c in seg.conds if c[0] in ('EXPIRED', 'EXPIRED_STRICT') and c[2] and c[1][0].kind in ('AUXHEAD',)]
+                        if ex:
+                            lic = 'full insert evicts the expired ttl head'
+                    else:
+                        lic = 'full insert evicts the policy victim'
+        elif k == 'CLEAN':
+            if roles.kind == 'maplist':
+                if ops.is_purge_iter(seg):
+                    lic = 'purge of an expired node'
+            else:
+                ex = [c for c in seg.conds if c[0] in ('EXPIRED', 'EXPIRED_STRICT') and c[2] and same_ent(c[1][0], ent)]
+                if ex and ent.kind == 'AUXHEAD':
+                    lic = 'clean removes the expired ttl head'
+        if lic is None and roles.kind == 'maplist' and ops.is_purge_iter(seg) and ent.kind == 'VIA':
+            lic = 'purge of an expired node'
+        res.ob('R-REMOVE-LICENSE', ok=lic is not None)
+        res.sample(dict(container=cm.name, method=where, valuation=val, removes=repr(ent), licence=lic), cap=10)
+        if lic is None:
+            V(res, prop, 'R-REMOVE-LICENSE', cm, where, 'removes %s without licence (%s path)' % (ent.kind, k.lower()), e.site,
+              'path [%s] of %s removes entry %r; a live entry may only leave by erase(k), clear(), expiry, or as the single victim of a full insert'
+              % (val, m.key(), ent))
+    # exactly one victim per full insert, before the bind, and the size stays at capacity
+    if k == 'INSERT' and present is False:
+        ok = len(unb) <= 1
+        if unb and binds:
+            ok = ok and seg.effects.index(unb[0]) < seg.effects.index(binds[0])
+        res.ob('R-ONE-VICTIM', ok=ok)
+        if not ok:
+            V(res, prop, 'R-ONE-VICTIM', cm, where, '%d removals on one insert path' % len(unb), unb[-1].site,
+              'an insert into a full cache removes exactly one entry, before the new key is bound [%s]' % val)
+        if unb and roles.counter is not None and roles.name != 'fifo_cache':
+            n = net(effs, 'CNT')
+            okn = (n == 0) and bool(binds)
+            res.ob('R-FULL-STAYS-FULL', ok=okn)
+            if not okn:
+                V(res, prop, 'R-FULL-STAYS-FULL', cm, where, 'evicting insert changes size by %s' % n, unb[0].site,
+                  'an insert that evicts must leave size() at capacity [%s]' % val)
+    if k == 'INSERT' and present is True and unb:
+        pass  # already reported above as unlicensed
+
+
+def same_key(ent, seg):
+    for c in seg.conds_of('PRESENT'):
+        if c[1][0] == ent.arg:
+            return True
+    return False
+
+
+def rule_c02_c03_shared_full_test(an, res, prop):
+    """the eviction trigger must be exactly `size >= capacity` (FULL): evict-while-free-slot or overflow otherwise"""
+    for cm, roles in an.classes():
+        if roles.counter is None or roles.name == 'fifo_cache':
+            continue
+        for m in an.entry_points(cm):
+            if ops.kind_of(m) != 'INSERT':
+                continue
+            for top in method_segments(an, cm, roles, m):
+                for b in ops.find_bodies(top, m):
+                    seg = b.seg
+                    if seg.cond('PRESENT') is not False or not seg.effs('BIND'):
+                        continue
+                    odd = [c for c in seg.conds if c[0] in ('OVERFULL', 'CAPCMP', 'ATCAP')]
+                    has_full = seg.cond('FULL') is not None
+                    ok = has_full and not odd
+                    res.ob('R-FULL-TEST', ok=ok)
+                    if not ok:
+                        c = odd[0] if odd else None
+                        V(res, prop, 'R-FULL-TEST', cm, b.where, 'eviction trigger is not `size >= capacity`', c[3] if c else site_of_seg(seg, m),
+                          'binding path [%s] is not guarded by the test size >= capacity (found %s)' % (' '.join(seg.valuation()), c[0] if c else 'no capacity test'))
